@@ -1018,6 +1018,124 @@ theorem decodeNeg_enc_auth (pf : Profile) (user pass : Text) (hpf : pf.creds = s
   simp [encAuth]
   omega
 
+/-! ### handleConnection -/
+
+theorem runFlat_suffix {α : Type} (p : P α) (bs : Bytes) : ∃ k, (p.runFlat bs).2 = bs.drop k := by
+  induction p generalizing bs with
+  | done a => exact ⟨0, by simp [P.runFlat]⟩
+  | read n e k ih =>
+    simp only [P.runFlat]
+    by_cases hn : n ≤ bs.length
+    · simp only [hn, if_true]
+      obtain ⟨j, hj⟩ := ih (bs.take n) (bs.drop n)
+      exact ⟨n + j, by rw [hj, List.drop_drop]⟩
+    · exact ⟨bs.length, by simp [hn]⟩
+
+theorem drop_of_suffix_length (bs : Bytes) (k used : Nat) (hu : used ≤ bs.length)
+    (h : bs.length - (bs.drop k).length = used) : bs.drop k = bs.drop used := by
+  simp only [List.length_drop] at h
+  by_cases hk : k ≤ bs.length
+  · have : k = used := by omega
+    rw [this]
+  · have h1 : used = bs.length := by omega
+    rw [h1, List.drop_length, List.drop_eq_nil_of_le (by omega)]
+
+theorem u8_mod (n : Nat) : u8 (n % 256) = u8 n := by
+  apply UInt8.toNat_inj.mp
+  simp [u8, UInt8.toNat_ofNat']
+
+theorem putBe16_eq_encPort (p : Nat) : putBe16 p = encPort p := by
+  simp [putBe16, encPort, u8_mod]
+
+theorem reply_success : isReply 0 sendSuccess = true := by decide
+
+theorem virtualDNS_text : asciiText socks5.VirtualDNSIP = [49, 48, 46, 48, 46, 48, 46, 49] := by decide
+
+theorem to4_length (ip b : Bytes) (h : to4 ip = some b) : b.length = 4 := by
+  unfold to4 at h
+  by_cases h4 : ip.length = 4
+  · simp [h4] at h; subst h; exact h4
+  · by_cases hm : isV4Mapped ip = true
+    · simp only [h4, hm, if_false, if_true, Option.some.injEq] at h
+      subst h
+      have : ip.length = 16 := by
+        simp only [isV4Mapped, Bool.and_eq_true, beq_iff_eq] at hm
+        exact hm.1.1.1
+      simp [this]
+    · simp [h4, hm] at h
+
+theorem bindReply_ok (ip : Bytes) (port : Nat) : bindReply ip port (sendSuccessWithBind ip port) = true := by
+  unfold bindReply sendSuccessWithBind
+  rw [putBe16_eq_encPort]
+  cases h : to4 ip with
+  | none => simp [isReply, encPort, socks5.Version, socks5.RepSuccess, socks5.AddrIPv4, u8]
+  | some b =>
+    have hb := to4_length ip b h
+    match b, hb with
+    | [b1, b2, b3, b4], _ =>
+      simp [isReply, encPort, socks5.Version, socks5.RepSuccess, socks5.AddrIPv4, u8]
+
+theorem conn_holds (c : IPText) (cfg : ConnCfg) (chunks : List Bytes) (tail : Tail) :
+    holdsConn c cfg chunks.flatten (handleConnection c cfg ⟨chunks, tail⟩) = true := by
+  have hf := P.runSrc_flat (handshakeP c) ⟨chunks, tail⟩
+  have hh := handshake_flat_holds c chunks.flatten
+  obtain ⟨k, hk⟩ := runFlat_suffix (handshakeP c) chunks.flatten
+  have hf1 : ((handshakeP c).runSrc ⟨chunks, tail⟩).1 = ((handshakeP c).runFlat chunks.flatten).1 := hf.1
+  have hf2 : ((handshakeP c).runSrc ⟨chunks, tail⟩).2.flat = ((handshakeP c).runFlat chunks.flatten).2 := hf.2
+  unfold handleConnection handshake
+  rw [hf1, hf2]
+  unfold holdsHs holdsNeg hsObs at hh
+  simp only at hh
+  generalize (handshakeP c).runFlat chunks.flatten = res at hh hk
+  obtain ⟨⟨out, written⟩, left⟩ := res
+  simp only at hh hk ⊢
+  unfold holdsConn
+  cases hd : decodeNeg listenerProfile chunks.flatten with
+  | reject why used pre =>
+    rw [hd] at hh
+    simp only [agrees, Bool.and_eq_true, decide_eq_true_eq] at hh
+    obtain ⟨⟨⟨h1, _⟩, h3⟩, h4⟩ := hh
+    cases out with
+    | ok r => simp [HsOut.res] at h1
+    | fail e => simp [h3, h4]
+  | accept cmd a port used pre =>
+    rw [hd] at hh
+    simp only [agrees, Bool.and_eq_true, decide_eq_true_eq, beq_iff_eq] at hh
+    obtain ⟨⟨h1, h2⟩, h3⟩ := hh
+    obtain ⟨methods, rsv, rest, hbs, _, _, _, _, hcmd, hused, _⟩ :=
+      decodeNeg_accept listenerProfile rfl _ _ _ _ _ _ hd
+    have hule : used ≤ chunks.flatten.length := by
+      rw [hused]
+      conv => rhs; rw [hbs]
+      simp only [List.length_append]
+      omega
+    have hleft : left = chunks.flatten.drop used := by
+      rw [hk]
+      exact drop_of_suffix_length _ _ _ hule (by rw [← hk]; exact h3)
+    have hc13 : cmd = 1 ∨ cmd = 3 := by simpa [listenerProfile] using hcmd
+    cases out with
+    | fail e => simp [HsOut.res] at h1
+    | ok r =>
+      simp only [HsOut.res, Option.some.injEq] at h1
+      subst h1 h2 hleft
+      simp only [hsExpect, socks5.CmdConnect, socks5.CmdUDPAssoc]
+      rcases hc13 with hc | hc
+      · subst hc
+        simp only [if_true, handleConnect, virtualDNS_text]
+        by_cases hdot : hostText c a = [49, 48, 46, 48, 46, 48, 46, 49] ∧ port = 853
+        · simp [hdot, dotIntercept, isPrefixOf_self_append, drop_self_append, reply_failure]
+        · have hdot' : dotIntercept (hostText c a) port = false := by
+            simp only [dotIntercept, Bool.and_eq_false_iff, beq_eq_false_iff_ne]
+            by_cases hh1 : hostText c a = [49, 48, 46, 48, 46, 48, 46, 49]
+            · exact Or.inr (fun hp => hdot ⟨hh1, hp⟩)
+            · exact Or.inl hh1
+          cases ht : cfg.hasTunnel <;> cases hok : cfg.tunnelOk <;>
+            simp [hdot, hdot', ht, hok, isPrefixOf_self_append, drop_self_append, reply_failure, reply_success]
+      · subst hc
+        simp only [show ¬ (3 = 1) by decide, if_false, if_true, handleUDPAssociate]
+        cases hr : cfg.hasRelay <;> cases hok : cfg.relayOk <;>
+          simp [hr, hok, isPrefixOf_self_append, drop_self_append, reply_failure, reply_cmd, bindReply_ok]
+
 /-! ### The relay: every schedule forwards every payload intact -/
 
 def Job.isOwned : Job → Bool
